@@ -18,14 +18,14 @@ RULE = ("generated *_test.ucg files (0-8 items: true/false asserts in literal, c
 
 PROBES = ["failing_file_before_passing_file", "asserting_lib_imported_by_two_tests", "type_fail_path_seen", "dir_order_differs_from_argv_sorted",
           "build_error_after_assertions", "file_listed_twice", "nested_dir_failure_only", "failing_lib_assert_shared", "assert_in_module_body",
-          "unlistable_directory_in_walk", "symlinked_test_file", "directory_with_only_subdirectories", "same_spelling_different_helpers", "stdout_reader_gone"]
+          "unlistable_directory_in_walk", "symlinked_test_file", "directory_with_only_subdirectories", "same_spelling_different_helpers", "stdout_reader_gone", "library_with_out_statement", "empty_description", "report_over_64k"]
 FAULT_KINDS = ["nonutf8_test_file", "dangling_test_file", "missing_library", "unlistable_directory", "stdout_closed"]
 TIERS = {
     "quick": {"runs": 420, "wall_cap": 200},
     "thorough": {"runs": 9000, "wall_cap": 3300, "reexecute": 80},
 }
 
-ASSERT_FORMS = ["literal", "computed", "via_func", "std_ok", "std_not_ok", "std_equal"]
+ASSERT_FORMS = ["literal", "computed", "via_func", "std_ok", "std_not_ok", "std_equal", "multiline_desc"]
 MALFORMED = ["nontuple", "ok_int", "desc_int", "no_ok", "no_desc", "ok_string", "both_bad", "neither_field", "empty_list"]
 ERRORS = ["fail", "missing_import", "type", "syntax", "runtime_opaque", "static_malformed", "div_zero", "format_too_few_args"]
 
@@ -34,7 +34,9 @@ def generate(rng, tier, idx):
     nlibs = rng.weighted([(0, 3), (1, 4), (2, 3)])
     libs = []
     for i in range(nlibs):
-        lib = {"name": "lib%d.ucg" % i, "dir": rng.choice(["", "libs"]), "flag": rng.chance(75), "asserts": [], "imports": []}
+        lib = {"name": "lib%d.ucg" % i, "dir": rng.choice(["", "libs"]), "flag": rng.chance(75), "asserts": [], "imports": [],
+               # a library may have an out statement of its own (its artifact is its own business)
+               "has_out": rng.chance(25)}
         for k in range(rng.weighted([(0, 4), (1, 3), (2, 2)])):
             lib["asserts"].append({"uid": "L%d%d%s" % (i, k, rng.token(5)), "ok": rng.chance(65)})
         if i == 1 and rng.chance(40):
@@ -79,6 +81,10 @@ def generate(rng, tier, idx):
                 t["items"].append({"k": "malformed", "uid": uid, "form": rng.choice(MALFORMED)})
             else:
                 t["items"].append({"k": "error", "uid": uid, "form": rng.choice(ERRORS)})
+        if rng.chance(10):
+            t["empty_desc"] = True       # a well-formed true assertion whose description is the empty string
+        if rng.chance(5):
+            t["bulk"] = True             # more than 64 KiB of passing report before anything else
         if rng.chance(6):
             t["fault"] = rng.choice(["nonutf8_test_file", "dangling_test_file"])
         elif rng.chance(8):
@@ -138,6 +144,8 @@ def render_lib(world, li):
         L.append('let dep%d = import "%s";' % (k, os.path.relpath(lib_path(other), lib["dir"] or ".")))
     for a in lib["asserts"]:
         L.append('assert {ok = %s, desc = "%s"};' % ("true" if a["ok"] else "false", a["uid"]))
+    if lib.get("has_out"):
+        L.append("out json {flag = flag};")
     return "\n".join(L) + "\n"
 
 
@@ -150,6 +158,11 @@ def render_test(world, ti):
         if not rel.startswith("."):
             rel = "./" + rel
         L.append('let l%d = import "%s";' % (li, rel))
+    if t.get("bulk"):
+        for k in range(8):
+            L.append('assert {ok = true, desc = "bulk%d%s-%s"};' % (k, t["name"][:2], "x" * 9000))
+    if t.get("empty_desc"):
+        L.append('assert {ok = true, desc = ""};')
     if world.get("helpers") and t.get("uses_helper"):
         kind = helper_kind(t["dir"])
         L.append('let hlp = import "./helper.ucg";')
@@ -166,6 +179,8 @@ def render_test(world, ti):
                 L.append('assert {ok = 1 + 1 == %d, desc = "%s"};' % (2 if ok else 3, u))
             elif form == "via_func":
                 L.append('assert {ok = idf(%s), desc = idf("%s")};' % (b, u))
+            elif form == "multiline_desc":
+                L.append('assert {ok = %s, desc = "%s\\nsecond line of the description"};' % (b, u))
             elif form == "std_ok":
                 L.append('assert tst.ok{test = %s, desc = "%s"};' % (b, u))
             elif form == "std_not_ok":
@@ -478,6 +493,12 @@ def execute(world, sb, res):
         ctx = "argv: %s (cwd <W>/proj)\n--- exit=%s signal=%s\n%s" % (" ".join(shown), inv.status, inv.signal, out[-2500:])
         if "TYPE FAIL" in out:
             res.probe("type_fail_path_seen")
+        if any(l.get("has_out") for l in world["libs"]):
+            res.probe("library_with_out_statement")
+        if any(t.get("empty_desc") for t in tests):
+            res.probe("empty_description")
+        if any(t.get("bulk") for t in tests):
+            res.probe("report_over_64k")
         if mode in ("dir_r", "noargs_r", "dir_r_abs") and any(t["dir"].startswith("nested/only_dirs") for t in tests):
             res.probe("directory_with_only_subdirectories")
         for j, lib in enumerate(world["libs"]):
